@@ -274,6 +274,19 @@ func (e *env) ev(x ast.Expr, hint types.Type) Val {
 				}
 			}
 		}
+		if id, ok := n.X.(*ast.Ident); ok {
+			// field of a package-level struct variable: go through its address so that the
+			// struct is never loaded as a value
+			_, isVar := e.vars[id.Name]
+			_, isName := e.st.names[id.Name]
+			if !isVar && !(isName && e.useNames) && e.pkg != nil {
+				if v, ok := e.pkg.Scope().Lookup(id.Name).(*types.Var); ok {
+					if _, isStruct := v.Type().Underlying().(*types.Struct); isStruct {
+						return e.field(e.addrOf(n.X), n.Sel.Name)
+					}
+				}
+			}
+		}
 		base := e.ev(n.X, nil)
 		return e.field(base, n.Sel.Name)
 	case *ast.StarExpr:
@@ -334,11 +347,11 @@ func (e *env) ev(x ast.Expr, hint types.Type) Val {
 		}
 		return r
 	case *ast.IndexExpr:
-		base := e.ev(n.X, nil)
+		base := e.arrayBase(n.X)
 		idx := e.ev(n.Index, types.Typ[types.Int])
 		return e.index(base, idx)
 	case *ast.SliceExpr:
-		base := e.ev(n.X, nil)
+		base := e.arrayBase(n.X)
 		return e.sliceOf(base, n)
 	case *ast.CallExpr:
 		return e.call(n, hint)
@@ -428,6 +441,47 @@ func (e *env) field(base Val, name string) Val {
 	return Val{}
 }
 
+// arrayBase evaluates the operand of an index/slice expression; an array-typed struct field
+// (x.buf) is taken by address so that large arrays are never loaded as values
+func (e *env) arrayBase(x ast.Expr) Val {
+	if sel, ok := x.(*ast.SelectorExpr); ok {
+		if _, isPkg := sel.X.(*ast.Ident); !isPkg || e.u.eng.importedPkg(e.pkg, sel.X.(*ast.Ident).Name) == nil || e.vars[sel.X.(*ast.Ident).Name].T != nil || e.useNames {
+			func() {
+				defer func() { recover() }()
+			}()
+			if p, ok := e.tryAddrOfArrayField(sel); ok {
+				return p
+			}
+		}
+	}
+	return e.ev(x, nil)
+}
+
+func (e *env) tryAddrOfArrayField(sel *ast.SelectorExpr) (v Val, ok bool) {
+	defer func() {
+		if r := recover(); r != nil {
+			ok = false
+		}
+	}()
+	base := e.ev(sel.X, nil)
+	pt, isPtr := base.T.Underlying().(*types.Pointer)
+	if !isPtr {
+		return Val{}, false
+	}
+	st, isStruct := pt.Elem().Underlying().(*types.Struct)
+	if !isStruct {
+		return Val{}, false
+	}
+	for i := 0; i < st.NumFields(); i++ {
+		if st.Field(i).Name() == sel.Sel.Name {
+			if _, isArr := st.Field(i).Type().Underlying().(*types.Array); isArr {
+				return e.addrOf(sel), true
+			}
+		}
+	}
+	return Val{}, false
+}
+
 func (e *env) idxTerm(idx Val) string {
 	if idx.K != nil {
 		return e.u.m.offConst(idx.K.Int64())
@@ -474,6 +528,12 @@ func (e *env) index(base, idx Val) Val {
 
 func (e *env) sliceOf(base Val, n *ast.SliceExpr) Val {
 	m := e.u.m
+	if pt, isPtr := base.T.Underlying().(*types.Pointer); isPtr {
+		if at, isArr := pt.Elem().Underlying().(*types.Array); isArr {
+			// slicing an array through its address
+			base = Val{T: types.NewSlice(at.Elem()), S: []string{base.S[0], base.S[1], m.offConst(at.Len()), m.offConst(at.Len())}}
+		}
+	}
 	bt, ok := base.T.Underlying().(*types.Slice)
 	if !ok {
 		e.fail("slice expression on %v", base.T)
